@@ -400,9 +400,10 @@ def main(argv=None):
         # 5. run (a changed fingerprint of a mirrored function = model possibly stale:
         #    not a violation, but the search runs with the thorough budget)
         stale_keys = []
-        if getattr(mod, 'MIRRORS', None):
-            import fingerprint
-            stale_keys, _cur = fingerprint.stale(prop_id, stage.REPO, mod.MIRRORS)
+        import fingerprint
+        mirrors = fingerprint.mirrors_of(mod, prop_id)
+        if mirrors:
+            stale_keys, _cur = fingerprint.stale(prop_id, stage.REPO, mirrors)
             if stale_keys:
                 log('mirrored source changed since the model was written (%s): using the thorough budget'
                     % ', '.join(stale_keys[:6]))
@@ -493,8 +494,11 @@ def main(argv=None):
             'wall_s': round(time.time() - t0, 2),
             'violations': len(unknown) + (1 if (rc == 1 and not unknown) else 0),
         }
-        os.makedirs(os.path.join(VERIF, 'evidence'), exist_ok=True)
-        with open(os.path.join(VERIF, 'evidence', prop_id + '.json'), 'w') as f:
+        # evidence of runs against a scratch copy (VERIF_REPO) never overwrites the evidence for /repo
+        evdir = os.path.join(VERIF, 'evidence') if os.path.realpath(stage.REPO) == '/repo' \
+            else os.path.join(CACHE, 'evidence_scratch')
+        os.makedirs(evdir, exist_ok=True)
+        with open(os.path.join(evdir, prop_id + '.json'), 'w') as f:
             json.dump(json.loads(canon(ev)), f, indent=1)
         log('evidence written; %d evaluations, %d distinct non-trivial, rc=%d' %
             (ctx.evaluations, len(ctx.distinct), rc))
